@@ -75,6 +75,7 @@ type child struct {
 	tasks    map[int]*modules.Task
 
 	inFlight int32 // lifecycle callbacks currently running
+	started  sync.Map // module name -> true once its start routine succeeded
 
 	arrivals sync.Map // point|ctx -> *int32
 }
@@ -125,6 +126,9 @@ func (c *child) lifecycle(mod, phase string, cb Callback) func() error {
 		case "panic":
 			outcome = "panic"
 			panicNow(cb.Panic)
+		}
+		if phase == "start" {
+			c.started.Store(mod, true)
 		}
 		return nil
 	}
@@ -411,6 +415,11 @@ func RunChild(sc *Scenario) *Result {
 			c.snapshot("manage", err, time.Since(t0))
 		case "launch":
 			var ids []int
+			type lateItem struct {
+				mod string
+				w   *Work
+			}
+			var late []lateItem
 			sources := map[string]bool{}
 			for _, n := range st.Mods {
 				m := sc.Mod(n)
@@ -428,6 +437,9 @@ func RunChild(sc *Scenario) *Result {
 							continue
 						}
 						sources[src] = true
+					} else if (w.Kind == "task" || w.Kind == "schedtask") && w.Mode == "waitctx" {
+						// a task that waits for its context blocks the serial task queue: launch it after all others began
+						late = append(late, lateItem{n, w})
 					} else {
 						c.launch(n, w)
 					}
@@ -436,6 +448,24 @@ func RunChild(sc *Scenario) *Result {
 			}
 			for src := range sources {
 				c.mods[src].TriggerEvent("ev", nil)
+			}
+			if len(late) > 0 {
+				var early []int
+				for _, id := range ids {
+					isLate := false
+					for _, l := range late {
+						if l.w.ID == id {
+							isLate = true
+						}
+					}
+					if !isLate {
+						early = append(early, id)
+					}
+				}
+				c.waitBegan(early, 20*time.Second)
+				for _, l := range late {
+					c.launch(l.mod, l.w)
+				}
 			}
 			if !c.waitBegan(ids, 20*time.Second) {
 				c.rec(Event{Kind: "launch-incomplete"})
@@ -481,7 +511,11 @@ func RunChild(sc *Scenario) *Result {
 			}
 		case "poststop":
 			for _, n := range st.Mods {
-				c.poststop(n)
+				// only modules that have been online and are stopped now
+				if _, ok := c.started.Load(n); ok && c.mods[n].Status() == modules.StatusOffline {
+					c.rec(Event{Kind: "poststop-probe", Mod: n})
+					c.poststop(n)
+				}
 			}
 			time.Sleep(30 * time.Millisecond) // one-sided grace: a wrongly executed task or hook gets the chance to show up
 			c.rec(Event{Kind: "poststop-done"})
